@@ -23,7 +23,7 @@ var errC13 = errors.New("c13: validator failure")
 func genC13(rng *rand.Rand, n int, emit func(Case), dist map[string]int) {
 	creds := []string{"joe:secret", "joe:wrong:secret", "joe:wrong", ":secret", "joe:", "nocolon", "", "jo\xffe:secret", "boom:x", "boomok:x", "a:b:c:secret", "joe:secret:", "ann:pw1", "ann:secret"}
 	keys := []string{"valid-key", "other-key", "boom", "boomok", "", "Valid-Key", "valid-key ", "k2"}
-	lookups := []string{"header:Authorization", "header:X-Api-Key", "query:key", "form:key", "cookie:key", "header:Authorization,query:key", "query:key,cookie:key", "header:X-Api-Key:Token ", "form:key,header:Authorization", "param:key", "param:key,query:key"}
+	lookups := []string{"header:Authorization", "header:X-Api-Key", "query:key", "form:key", "cookie:key", "header:Authorization,query:key", "query:key,cookie:key", "header:X-Api-Key:Token ", "form:key,header:Authorization", "param:key", "param:key,query:key", "header:Authorization:Token ", "header:Authorization:ApiKey "}
 	e := echo.New()
 	for it := 0; it < n; {
 		vmode := rng.Intn(3)
